@@ -409,3 +409,84 @@ class SequentialPlaceReservation:
     def ensures_applied_and_nothing_placed(constraint, old_placements, result, _trace):
         return (len(_trace) == 1 and _trace[0] == ("apply_reserve_resource_constraint", constraint)
                 and forall_int(lambda u: (u in result[0]) == (u in old_placements) and implies(u in result[0], result[0][u] == old_placements[u])))
+
+
+# ---- the ordering placers: hilbert, breadth-first and RCM only choose ORDERS; the problem they hand to the sequential placer is the caller's ----
+from pyvc.values import ListV as _L02, ObjV as _O02, TRec as _TRec02, TInt as _TInt02, TBool as _TBool02   # noqa: E402
+
+
+def _o02(name):
+    return _TRec02(name, ident=_TInt02(0, 99))
+
+
+def _order_fn(tag, ident):
+    def handler(E, args, kwargs, st, node):
+        s = st.copy()
+        s.trace = _L02(s.trace.items + ((tag,) + tuple(a.fields["ident"] for a in args),))
+        return [(s, _O02("Order", {"ident": ident}))]
+    return handler
+
+
+def _seq_place(E, args, kwargs, st, node):
+    s = st.copy()
+    s.trace = _L02(s.trace.items + (("sequential_place",) + tuple((a.fields["ident"] if hasattr(a, "fields") else a) for a in args),))
+    return [(s, _O02("Placements", {"ident": 50}))]
+
+
+_P02 = dict(vertices_resources=_o02("VR"), nets=_o02("Nets"), machine=_o02("Machine"), constraints=_o02("Constraints"))
+
+
+@contract("rig/place_and_route/place/hilbert.py::place")
+class HilbertPlaceHandsOn:
+    """the Hilbert placer is the sequential placer on exactly the caller's graph, machine and constraints (which vertex and chip
+    ORDERS it chooses is its own business: the statement asks for a valid placement, not for a particular one); its answer is the
+    sequential placer's"""
+    properties = ("C02",)
+    params = dict(_P02, breadth_first=_TBool02())
+    externals = {"def:place": _seq_place, "def:breadth_first_vertex_order": _order_fn("vertex_order", 61),
+                 "def:hilbert_chip_order": _order_fn("chip_order", 62)}
+    options = {"no_merge": True}
+    assumptions = ["the sequential placer (its step contracts) and the order functions are opaque and recorded; the orders themselves "
+                   "(completeness of the chip order) are exercised by the bounded layer"]
+
+    def native(x):
+        raise __import__("pyvc.replay", fromlist=["OutsideHarness"]).OutsideHarness()
+
+    def ensures_the_callers_problem_and_the_sequential_placers_answer(vertices_resources, nets, machine, constraints, result, _trace):
+        last = _trace[len(_trace) - 1]
+        return (result.ident == 50 and last[0] == "sequential_place" and len([t for t in _trace if t[0] == "sequential_place"]) == 1
+                and last[1:5] == (vertices_resources.ident, nets.ident, machine.ident, constraints.ident))
+
+
+@contract("rig/place_and_route/place/breadth_first.py::place")
+class BreadthFirstPlaceHandsOn:
+    """the breadth-first placer is the sequential placer on exactly the caller's problem; its answer is the sequential placer's"""
+    properties = ("C02",)
+    params = dict(_P02, chip_order=_o02("ChipOrder"))
+    externals = {"def:place": _seq_place, "def:breadth_first_vertex_order": _order_fn("vertex_order", 61)}
+    assumptions = HilbertPlaceHandsOn.assumptions
+
+    def native(x):
+        raise __import__("pyvc.replay", fromlist=["OutsideHarness"]).OutsideHarness()
+
+    def ensures_the_callers_problem_and_the_sequential_placers_answer(vertices_resources, nets, machine, constraints, result, _trace):
+        last = _trace[len(_trace) - 1]
+        return (result.ident == 50 and last[0] == "sequential_place" and len([t for t in _trace if t[0] == "sequential_place"]) == 1
+                and last[1:5] == (vertices_resources.ident, nets.ident, machine.ident, constraints.ident))
+
+
+@contract("rig/place_and_route/place/rcm.py::place")
+class RcmPlaceHandsOn:
+    """the RCM placer is the sequential placer on exactly the caller's problem; its answer is the sequential placer's"""
+    properties = ("C02",)
+    params = dict(_P02)
+    externals = {"def:place": _seq_place, "def:rcm_vertex_order": _order_fn("vertex_order", 61), "def:rcm_chip_order": _order_fn("chip_order", 62)}
+    assumptions = HilbertPlaceHandsOn.assumptions
+
+    def native(x):
+        raise __import__("pyvc.replay", fromlist=["OutsideHarness"]).OutsideHarness()
+
+    def ensures_the_callers_problem_and_the_sequential_placers_answer(vertices_resources, nets, machine, constraints, result, _trace):
+        last = _trace[len(_trace) - 1]
+        return (result.ident == 50 and last[0] == "sequential_place" and len([t for t in _trace if t[0] == "sequential_place"]) == 1
+                and last[1:5] == (vertices_resources.ident, nets.ident, machine.ident, constraints.ident))
